@@ -810,6 +810,37 @@ example :
       = some .errLong := by
   decide
 
+/-! ## Interim (1xx) responses (repaired defect: an unsolicited 100 was returned as the final response) -/
+
+/-- The client's response-header loop skips every interim response, whatever their number and
+statuses (also a 100 the request did not ask for): what it returns is decided by the rest alone. -/
+theorem clientFinal_skips_interim {α : Type} (interim : List Nat) (es : List (Ev α)) :
+    clientFinal (interimEvents interim ++ es) = clientFinal es := by
+  induction interim with
+  | nil => simp [interimEvents]
+  | cons st sts ih =>
+    have : interimEvents (st :: sts) ++ es = Ev.infoHeaders st :: Ev.flush :: (interimEvents sts ++ es) := by
+      simp [interimEvents]
+    rw [this]
+    simp only [clientFinal]
+    exact ih
+
+/-- End to end: a handler that sends interim responses first (`w.WriteHeader(100)`, `(103)`, …) is
+seen by the client exactly like the same handler without them — same final status, same body part,
+same `Write` results. -/
+theorem respondInterim_same_final {α : Type} (isHead : Bool) (d : Int) (interim : List Nat)
+    (ex : Option Nat) (ops : List HOp) (tr : Option α) :
+    clientFinal (respondInterim isHead d interim ex ops tr).1 = clientFinal (respond isHead d ex ops tr).1 ∧
+    (respondInterim isHead d interim ex ops tr).2 = (respond isHead d ex ops tr).2 := by
+  exact ⟨clientFinal_skips_interim interim _, rfl⟩
+
+/-- The old failing input: `w.WriteHeader(100); w.WriteHeader(200); w.Write(body)` to a GET without
+`Expect: 100-continue` — the client's response is the 200 with the body. -/
+example :
+    (clientFinal (respondInterim (α := Unit) false (-1) [100] (some 200) [.write [1, 2, 3]] none).1).map
+        (fun r => (r.1, bodyOf (evFrames r.2))) = some (200, [1, 2, 3]) := by
+  decide
+
 /-! ## Byte-level framing and message composition -/
 
 private theorem appendVarint_ne_nil (v : Nat) (a : List Nat) (h : appendVarint v = some a) : a ≠ [] := by
